@@ -176,6 +176,13 @@ class Gen:
         name = pkg.fresh("E")
         is_flags = rng.random() < 0.4
         base = rng.choice(INT_PRIMS + ["int32", "int32"])  # default base is int32
+        base_spelling = base
+        if rng.random() < 0.35:
+            # the base given through a named alias of the integer primitive (a valid spelling of the same base)
+            aname = pkg.fresh("B")
+            pkg.defs.append((aname, "%s: %s" % (aname, base)))
+            pkg.structs[aname] = ("alias", prim(base))
+            base_spelling = aname
         signed, w = INTW[base]
         n = rng.randint(1, 5)
         syms = ["v%s%d" % (chr(97 + i), i) for i in range(n)]
@@ -204,8 +211,8 @@ class Gen:
             else:
                 values = list(range(n))
         lines = ["%s: %s" % (name, "!flags" if is_flags else "!enum")]
-        if base != "int32" or rng.random() < 0.3:
-            lines.append("  base: %s" % base)
+        if base_spelling != "int32" or rng.random() < 0.3:
+            lines.append("  base: %s" % base_spelling)
         lines.append("  values:")
         if explicit:
             for s, v in zip(syms, values):
@@ -525,7 +532,10 @@ def gen_value(rng, t, size=3, finite=False, opts=None):
             if p == "date":
                 return ("int", rng.choice([0, 1, -1, 19000, -719162, 2932896, rng.randint(-700000, 2900000)]))
             if p == "time":
-                return ("int", rng.choice([0, 1, 86399999999999, 3600 * 10 ** 9, rng.randrange(86400 * 10 ** 9)]))
+                S = 10 ** 9
+                return ("int", rng.choice([0, 1, 86399999999999, 3600 * S, (13 * 3600 + 5 * 60 + 30) * S, (13 * 3600 + 20 * 60) * S, 10 * S,
+                                           (12 * 3600 + 34 * 60 + 56) * S + 500000000, 7 * S + 123000000, 7 * S + 123456000, 59 * S + 100,
+                                           rng.randrange(86400) * S, rng.randrange(86400 * 10 ** 9)]))
             if p == "datetime":
                 return ("int", rng.choice([0, 1, -1, 10 ** 18, -10 ** 18, gen_int(rng, True, 63)]))
             return ("int", gen_int(rng, signed, w))
